@@ -1054,7 +1054,14 @@ func (r *cliRun) step(st *cStep) {
 	case "close":
 		r.emit(sEvent{"k": "userclose"})
 		r.closedByUs = true
-		r.conn.Close()
+		if r.toB.hold {
+			// the peer is not reading: Close may have to wait for its GOAWAY to go out, and the goroutine that will
+			// let the peer read again must not be the one that waits
+			r.asyncOps.Add(1)
+			go func() { defer r.asyncOps.Done(); r.conn.Close() }()
+		} else {
+			r.conn.Close()
+		}
 		r.quiesce()
 	case "ungate":
 		if r.gated.Load() {
@@ -1093,6 +1100,7 @@ func (r *cliRun) step(st *cStep) {
 		r.toB.setHold(true)
 	case "resumeread":
 		r.toB.setHold(false)
+		r.asyncOps.Wait()
 		r.quiesce()
 	case "failwrites":
 		tot, _, _, _, _ := r.toB.stats()
